@@ -8,6 +8,7 @@ CONSTANTS
   Filts = {FALSE, TRUE}
   Meds = {FALSE, TRUE}
   AllowClear = TRUE
+  DeltaOpts = {TRUE, FALSE}
   AsCoded = FALSE
   Withhold = FALSE
 VIEW View
